@@ -106,7 +106,16 @@ fn apply_wstep<C: CustomMsg + 'static>(w: W<C>, s: &WStep) -> W<C> {
         WStep::ReplyEmpty(t) => tagged!(w, with_reply_empty, h_reply, Empty, *t),
         WStep::Migrate(t) => tagged!(w, with_migrate, h_migrate, C, *t),
         WStep::MigrateEmpty(t) => tagged!(w, with_migrate_empty, h_migrate, Empty, *t),
-        WStep::Checksum(b) => w.with_checksum(Checksum::generate(&[*b])),
+        WStep::Checksum(b) => w.with_checksum(wrapper_checksum(*b)),
+    }
+}
+
+/// tag 3 is the all-zero digest (a checksum like any other)
+fn wrapper_checksum(b: u8) -> Checksum {
+    if b % 4 == 3 {
+        Checksum::from([0u8; 32])
+    } else {
+        Checksum::generate(&[b])
     }
 }
 
@@ -129,7 +138,7 @@ fn check_wrapper<C: CustomMsg + 'static>(base_empty: bool, steps: &[WStep], viol
             WStep::Sudo(t) | WStep::SudoEmpty(t) => exp_sudo = Some(*t % 4),
             WStep::Reply(t) | WStep::ReplyEmpty(t) => exp_reply = Some(*t % 4),
             WStep::Migrate(t) | WStep::MigrateEmpty(t) => exp_migrate = Some(*t % 4),
-            WStep::Checksum(b) => exp_checksum = Some(Checksum::generate(&[*b])),
+            WStep::Checksum(b) => exp_checksum = Some(wrapper_checksum(*b)),
         }
     }
     let c: &dyn Contract<C, Empty> = &w;
